@@ -43,6 +43,17 @@ theorem unwind_and_stop_tie :
 /-- modules supplied as globals live in `vm.modules` (model: `mods`, initially true) -/
 theorem global_modules_tie : applyOptionsRegistersModules = true := by decide
 
+/-- `Get` and `GlobalNames` assign no field of the VM and read only the active code: a look-up
+    leaves no trace and its answer depends on nothing but the active code (model: `get`,
+    `globalNames` are functions of `activeWrap`; `lookups_leave_no_trace`) -/
+theorem get_is_read_only_tie :
+    getAssigns = expectGetAssigns ∧ globalNamesAssigns = expectGetAssigns ∧
+    getReads = expectGetReads ∧ globalNamesReads = expectGetReads := by decide
+
+/-- the fields of `VirtualMachine` are exactly the ones the model accounts for
+    (`expectVmFields`): a new field is per-VM storage the model does not know of -/
+theorem vm_fields_tie : vmFields = expectVmFields := by decide
+
 theorem limits_tie :
     maxFrameDepth = expectMaxFrameDepth ∧ maxStackDepth = expectMaxStackDepth := by decide
 
